@@ -1,0 +1,31 @@
+//go:build verif
+
+package schema
+
+import "sort"
+
+// Read-only accessors for the lazily filled caches and the per-step run table, for the
+// verification harness in /verif (sequential footprint correspondence of C13). Add-only; compiled
+// only with the build tag `verif`.
+
+// VerifUnitsCacheState reports which lazily built caches of a units definition hold a value.
+func VerifUnitsCacheState(u *UnitsDefinition) (sortedMultipliers bool, re bool) {
+	return u.sortedMultipliersCache != nil, u.reCache != nil && u.reSubExpNames != nil
+}
+
+// VerifObjectDefaultsDecoded reports whether an object schema holds its decoded default values.
+func VerifObjectDefaultsDecoded(o *ObjectSchema) bool {
+	return o.defaultValues != nil
+}
+
+// VerifStepRuns lists the run IDs a callable step holds step data for.
+func (s *CallableStepSchema[StepData, InputType]) VerifStepRuns() []string {
+	s.initializerMutex.Lock()
+	defer s.initializerMutex.Unlock()
+	runs := make([]string, 0, len(s.stepData))
+	for runID := range s.stepData {
+		runs = append(runs, runID)
+	}
+	sort.Strings(runs)
+	return runs
+}
